@@ -99,7 +99,7 @@ impl GenerationCache {
         }
 
         let content = serde_json::to_string_pretty(self)?;
-        fs::write(cache_path, content)?;
+        crate::generators::base::file_writer::write_generated_file(&cache_path, &content)?;
         Ok(())
     }
 
